@@ -46,6 +46,28 @@ func Pool(thorough bool) []Src {
 			p = append(p, Src{"a.xgo", s})
 		}
 	}
+	// spacing variants: a formatter mostly meets text that is NOT laid out canonically. For the hand seeds and
+	// the depth-1 grammar in three statement contexts: a blank inserted at every token boundary, and the
+	// source with every blank between two tokens removed where that leaves the token sequence unchanged.
+	var spaced []string
+	spaced = append(spaced, corpus.HandSeeds...)
+	for _, e := range corpus.Exprs(1) {
+		spaced = append(spaced, "x := "+e, "f "+e+", 1", "if "+e+" {\n}")
+	}
+	for _, src := range spaced {
+		bs := Boundaries(src)
+		if len(bs) > 26 {
+			continue
+		}
+		for _, b := range bs {
+			if b > 0 && b < len(src) {
+				p = append(p, Src{"a.xgo", src[:b] + " " + src[b:]})
+			}
+		}
+		if c := compact(src); c != src {
+			p = append(p, Src{"a.xgo", c})
+		}
+	}
 	step := 3
 	if thorough {
 		step = 1
@@ -319,5 +341,33 @@ func Boundaries(src string) []int {
 		}
 	}
 	out = append(out, len(src))
+	return out
+}
+
+
+// compact removes the blanks between tokens wherever the scanner still yields the same tokens.
+func compact(src string) string {
+	want := scanx.XGo([]byte(src), true, nil).Toks
+	out := src
+	for i := len(out) - 1; i >= 0; i-- {
+		if out[i] != ' ' {
+			continue
+		}
+		cand := out[:i] + out[i+1:]
+		got := scanx.XGo([]byte(cand), true, nil).Toks
+		if len(got) != len(want) {
+			continue
+		}
+		same := true
+		for j := range got {
+			if got[j].Kind != want[j].Kind || got[j].Lit != want[j].Lit {
+				same = false
+				break
+			}
+		}
+		if same {
+			out = cand
+		}
+	}
 	return out
 }
